@@ -377,6 +377,8 @@ def run_c12(ck):
     models, corr, tie_ok, stats = common(ck, "C12")
     harness, _ = vlib.build_harness()
     cb_ok, cb_broken = True, []
+    ck.trusted.append("Go harness /verif/harness/cbtool.go (falsifier: the callbacks clause stated on both compiled interpreters; not part of the proof) and "
+                      "the three callback primitives of coq/Lib/Machine.v (cb_pc, cb_absent_OnWDM, cb_call_OnWDM: events EvPC / EvWDM), validated by the lockstep tie")
     if models:
         def one(mod):
             # C08 (ranges) in parallel with the quiet-routine and Step lemmas of the callbacks clause; then C12 (cycles) in
